@@ -267,6 +267,27 @@ def correspondence(ctx, model_available=True):
                                           "(status 1) is documented" % (" ".join(a), r["mode"], documented_incompatibility(a)), "argv": a})
         elif r["kind"] == "usage" and (r["out"] or not r["err"]):
             spec_failures.append({"what": "usage error for %r: stdout %r stderr %r" % (a, r["out"][:60], r["err"][:60]), "argv": a})
+    # the two value syntaxes of --throttle (and of --init) name the same run
+    syn = 0
+    for a, r in zip(argvs, impl):
+        if "--" in a or r["kind"] == "raise":
+            continue
+        for i, x in enumerate(a):
+            for f in ("--throttle", "--init"):
+                b = None
+                if x.startswith(f + "=") and len(x) > len(f) + 1:
+                    b = a[:i] + [f, x[len(f) + 1:]] + a[i + 1:]
+                elif x == f and i + 1 < len(a) and a[i + 1] != "":
+                    b = a[:i] + [f + "=" + a[i + 1]] + a[i + 2:]
+                if b is None:
+                    continue
+                r2 = real_parse(b)
+                syn += 1
+                k1 = {k: v for k, v in r.items() if k not in ("out", "err")}
+                k2 = {k: v for k, v in r2.items() if k not in ("out", "err")}
+                if k1 != k2 and len(spec_failures) < 8:
+                    spec_failures.append({"what": "hera %s and hera %s are two spellings of the same command line but are treated "
+                                                  "differently: %r vs %r" % (" ".join(a), " ".join(b), k1, k2), "argv": a})
     agree = 0
     if model_available:
         terms = []
@@ -312,7 +333,7 @@ def correspondence(ctx, model_available=True):
                 "missing, directory and non-ASCII inputs: exit status in {0,1,3}, no exception, usage errors print "
                 "nothing on stdout, program output on stdout and the state dump on stderr, .lcode/.ldata equal to "
                 "--stdout --code/--data",
-        "distribution": {"parse_outcomes": dist, **st},
+        "distribution": {"syntax_pairs": syn, "parse_outcomes": dist, **st},
         "samples": [{"argv": argvs[20]}],
         "disagreements": disagreements[:10], "spec_failures": spec_failures[:5],
         "model_vs_impl_agree": agree, "model_available": model_available,
